@@ -12,7 +12,7 @@ from mc.gen import render
 
 ID = "C14"
 LEVEL = "fault_enumeration"
-LEVEL_TEXT = ("Complete enumeration of valid generated program x every statement position (top level and inside blocks, named scopes, loop bodies and bodies of applied macros) x 20 classes of definite error "
+LEVEL_TEXT = ("Complete enumeration of valid generated program x every statement position (top level and inside blocks, named scopes, loop bodies, taken .if branches and bodies of applied macros) x 24 classes of definite error "
               "(bad character, bad size suffix, bad index register, unterminated string, unterminated comment, missing closing brace, "
               "stray token, undefined symbol in an operand / in data, undefined macro, too few macro arguments, addressing mode or "
               "width the mnemonic lacks, branch out of range, *= to an unmapped bank, missing .include/.incbin/.table/.include_ips "
@@ -20,7 +20,7 @@ LEVEL_TEXT = ("Complete enumeration of valid generated program x every statement
               "ips and sfc), plus one real CLI process per (error class, format); the unmodified programs are the negative control. "
               "Five unit tests assert NodeError from the string API only.")
 LEVEL_NOTE = ("Failure = non-None return, non-zero status, or any exception; success must not be announced in the log. Positions are "
-              "top-level statement boundaries of 6 base programs. A hang is reported as a violation here as well (it is not a report).")
+              "top-level statement boundaries of 7 base programs. A hang is reported as a violation here as well (it is not a report).")
 TECHNIQUE = "exhaustive fault injection: error class x statement position x entry point, status/exception oracle"
 RULE = ("case = (base program, error class); it injects that error at every top-level position and runs every entry point. evaluations = "
         "(position, entry point) runs. Every faulty case is distinct by construction and non-trivial (it contains a definite error); "
@@ -42,6 +42,10 @@ FAULTS = {
     "mode-the-mnemonic-lacks": "sta #0x12",
     "width-the-mode-lacks": "lda.l #0x123456",
     "branch-out-of-range": "bra c14anchor+0x1000",
+    "branch-just-out-of-range": "c14here:\nbra c14here+0x92",
+    "undefined-symbol-assign": "c14k := nosuchsymbol + 1",
+    "undefined-symbol-loop-bound": ".for c14i := 0, nosuchsymbol {\n.db 1\n}",
+    "undefined-symbol-ips-delta": ".include_ips 'nosuchfile.ips', nosuchsymbol",
     "org-unmapped-bank": "*=0x700000",
     "missing-include": ".include 'nosuchfile.s'",
     "missing-incbin": ".incbin 'nosuchfile.bin'",
@@ -81,7 +85,7 @@ def setup(tier, seed):
 
 
 def bound(tier):
-    return "6 base programs x every top-level and nested position x 20 error classes x 5 in-process entry points; 20 x 2 real CLI processes; controls"
+    return "7 base programs x every top-level and nested position x 24 error classes x 5 in-process entry points; 24 x 2 real CLI processes; controls"
 
 
 def base_programs():
@@ -93,6 +97,10 @@ def base_programs():
         idx = next(i for i, s in enumerate(b) if s[0] == "org") + 1
         b.insert(idx, ("label", "c14anchor"))
         out[name] = PRELUDE + b
+    out["conditional"] = PRELUDE + [("const", "c14on", ("n", 1, "1")), ("org", ("n", 0x018000, "0x018000")), ("label", "c14anchor"),
+                                    ("if", ("s", "c14on"), [("data", "db", [("n", 1, "1")]), ("block", [("data", "db", [("n", 2, "2")])])],
+                                     [("data", "db", [("n", 3, "3")])]),
+                                    ("for", "c14v", ("n", 0, "0"), ("n", 2, "2"), [("if", ("n", 1, "1"), [("data", "db", [("s", "c14v")])], None)])]
     out["tiny"] = PRELUDE + [("org", ("n", 0x018000, "0x018000")), ("label", "c14anchor"), ("data", "db", [("n", 1, "1")])]
     return out
 
@@ -173,7 +181,7 @@ def inject(prog, pos, text):
     return prog[:npre + pos] + [("raw", text)] + prog[npre + pos:]
 
 
-BODY_INDEX = {"block": 1, "scope": 2, "macro": 3, "for": 4}
+BODY_INDEX = {"block": 1, "scope": 2, "macro": 3, "for": 4, "if": 2}  # "if": the then-branch (base programs only use true conditions)
 
 
 def nested_positions(prog):
